@@ -10,7 +10,9 @@
 (* get() returns equals a fresh scan of the collection (LazyInv).          *)
 (***************************************************************************)
 EXTENDS Naturals, Sequences, FiniteSets, TLC, Json
-CONSTANTS Vals, Offs, Sizes, MaxEv
+CONSTANTS Vals, Offs, Sizes, MaxEv,
+          Members0,   \* initial members of the collection
+          GetWeight   \* how many times get() is offered to the random simulator
 VARIABLES member,  \* the owning collection
           has,     \* does the value currently have a key (interval address not None)
           off, sz, \* the key
@@ -30,7 +32,7 @@ Apply(t, es) == IF es = <<>> THEN t
 Branch == IF ~built THEN "build" ELSE IF Cardinality(member) <= Len(ev) THEN "rebuild" ELSE "replay"
 Materialise == IF Branch = "replay" THEN Apply(tree, ev) ELSE Fresh
 
-Init == /\ member = {} /\ has = [v \in Vals |-> TRUE] /\ off = [v \in Vals |-> 0] /\ sz = [v \in Vals |-> 0]
+Init == /\ member = Members0 /\ has = [v \in Vals |-> TRUE] /\ off = [v \in Vals |-> 0] /\ sz = [v \in Vals |-> 0]
         /\ tree = {} /\ built = FALSE /\ ev = <<>> /\ op = [name |-> "init"]
 
 EvIf(c, e) == IF c THEN <<e>> ELSE <<>>
@@ -56,7 +58,7 @@ Get == /\ tree' = Materialise /\ built' = TRUE /\ ev' = <<>>
        /\ UNCHANGED <<member, has, off, sz>>
 Next == \/ \E v \in Vals : Add(v) \/ Discard(v)
         \/ \E v \in Vals, h \in BOOLEAN, o \in Offs, s \in Sizes : SetKey(v, h, o, s)
-        \/ Get
+        \/ \E w \in 1..GetWeight : Get
 Spec == Init /\ [][Next]_vars
 Bound == Len(ev) <= MaxEv
 
